@@ -61,7 +61,8 @@ def run_demo(meta, src, wt):
             names += re.findall(r"func (Test\w+)\(", open(p).read())
     if names:
         pkg = "./internal/cmd" if "/internal/cmd/" in placed[0] else "./internal/server"
-        cmd = "go test -count=1 -run '^(%s)$' %s" % ("|".join(names), pkg)
+        tags = "-tags verif " if any("go:build verif" in open(q).read() for q in placed if q.endswith("_test.go")) else ""
+        cmd = "go test %s-count=1 -run '^(%s)$' %s" % (tags, "|".join(names), pkg)
     elif not cmd:
         cmd = "go run ./zz_seed_demo"
     results = []
